@@ -157,7 +157,8 @@ def run(prop, tier, seed):
     L = Lean()
     viol, n, ndraws, samples = [], 0, 0, []
     for prog in progs:
-        for sd in ([prog["seed"], 7, 123456] if thorough else [prog["seed"], 7]):
+        # seeds: the program's own, a small one, the legal extremes 0 and 2^31 - 1 (alternating), a large one
+        for sd in ([prog["seed"], 7, 0, 2**31 - 1, 123456] if thorough else [prog["seed"], 7, (0 if n % 2 == 0 else 2**31 - 1)]):
             p = dict(prog)
             p["seed"] = sd
             n += 1
